@@ -17,6 +17,7 @@ from .calls import LETTERS, wid
 from .common import outcome_class, robotools
 
 SENT = -999999
+BIG = 2**30
 DEN_LIMIT = 5000
 LCM_LIMIT = 10**6
 
@@ -175,10 +176,9 @@ def kw_log(kw):
 # ----------------------------------------------------------------------------- arguments
 def vol_float(k, unit):
     """k units as the float handed to robotools (exact for the units the drivers use)."""
-    if k == "inf":
-        return float("inf")
-    if k == "nan":
-        return float("nan")
+    if k >= BIG:
+        # the abstract volume "exceeds every limit": infinity, or a huge finite value
+        return float("inf") if k == BIG else 1e300
     return float(Fraction(k) * unit)
 
 
@@ -566,7 +566,7 @@ def execute(prog):
         flags = dict(prog.get("flags", {}))
         cents = unit * 100
         unitc = int(cents) if cents.denominator == 1 and cents < 2**20 else 0
-        k = int(1 / unit) if unit.numerator == 1 else 0
+        k = int(1 / unit) if unit.numerator == 1 and unit.denominator <= 1024 else 0
         wlp = prog["wl"]
         maxc = wlp["maxv"] * unitc
         hdr = {
